@@ -613,3 +613,20 @@ Definition check_expr_path (d : nat) (hs : list expr) (e o : expr) : option vpat
   else if (if eround_b (tol_of d) o o then equiv_b e o else false) then Some VSelf
   else if existsb (fun h => if eround_b (tol_of d) h o then equiv_b e h else false) hs then Some VHint
   else None.
+
+(* ------------------------------------------------------------------ a disjunction of conditions *)
+(* The numeric conditions of an (or ...) node: nothing may be eliminated (an equality of a disjunction says nothing about the
+   other disjuncts) and nothing may be omitted: every input condition is printed as some output condition and every output
+   condition prints some input condition, each pair validated on its own like an inequality without assumptions. *)
+Definition covered_by (d : nat) (hs : list cond) (c o : cond) : bool :=
+  match check_under d [] hs c o with Some _ => true | None => false end.
+
+Definition check_or (d : nat) (hs conds out : list cond) : bool :=
+  forallb (fun c => existsb (fun o => covered_by d hs c o) out) conds &&
+  forallb (fun o => existsb (fun c => covered_by d hs c o) conds) out.
+
+Definition or_mids (d : nat) (hs conds out : list cond) : list mcond :=
+  flat_map (fun c => somes (map (fun o => check_under d [] hs c o) out)) conds.
+
+Definition or_paths (d : nat) (hs conds out : list cond) : list (option vpath) :=
+  map (fun o => first_some (fun c => match check_under d [] hs c o with Some m => Some (mid_path o m) | None => None end) conds) out.
